@@ -124,15 +124,41 @@ theorem Inv.of_fields {w w' : World} (h : Inv w) (hc : w'.cfg = w.cfg) (hlr : w'
 theorem Inv.pres_setP {w : World} (h : Inv w) (k : Nat) (P : Part) : Inv (setP w k P) :=
   h.of_fields rfl rfl rfl rfl rfl rfl
 
-/-- a notifier refreshes its connections -/
-theorem Inv.pres_setN_update {w : World} (h : Inv w) {n : Nat} {N : Noti} (hN : w.nots n = some N) (hst : N.st = .alive) :
-    Inv (setN w n (updateConns w N)) := by
-  have hf := updateConns_fields w N
-  have e2 : notOwn (setN w n (updateConns w N)) = notOwn w := by
+theorem prune_fields (w : World) (N : Noti) (ls : List Nat) :
+    (prune w N ls).st = N.st ∧ (prune w N ls).slot = N.slot ∧ (prune w N ls).node = N.node ∧
+    (prune w N ls).defId = N.defId ∧ (prune w N ls).snapCtr = N.snapCtr := by
+  simp [prune]
+
+/-- closing the connections to dead listeners keeps the notifier in sync -/
+theorem prune_synced {w : World} {N : Noti} (ls : List Nat) (s : Synced w N) : Synced w (prune w N ls) := by
+  constructor
+  · intro i l hs ha
+    have hc := s.all i l hs ha
+    obtain ⟨L, hL, hst⟩ := ha
+    simp only [prune, List.getElem?_map, hc, Option.map_some]
+    have : deadIdle w l = false := by simp [deadIdle, hL, hst]
+    simp [this]
+  · intro i l hc
+    apply s.only i l
+    simp only [prune, List.getElem?_map] at hc
+    rcases hx : N.conns[i]? with _ | (_ | a)
+    · rw [hx] at hc; cases hc
+    · rw [hx] at hc; cases hc
+    · rw [hx] at hc
+      simp only [Option.map_some] at hc
+      split at hc
+      · cases hc
+      · cases hc; rfl
+
+/-- a notifier's record is replaced by one with the same identity that is in sync -/
+theorem Inv.pres_setN_synced {w : World} (h : Inv w) {n : Nat} {N : Noti} (hN : w.nots n = some N) (N' : Noti)
+    (h1 : N'.st = N.st) (h2 : N'.slot = N.slot) (h3 : N'.snapCtr = w.lisReg.counter) (hs : Synced w N') :
+    Inv (setN w n N') := by
+  have e2 : notOwn (setN w n N') = notOwn w := by
     funext a
-    simp only [notOwn, setN]
+    simp only [notOwn, setN_nots]
     by_cases ha : a = n
-    · subst ha; simp [hN, hf.1, hf.2.1]
+    · subst ha; simp [hN, h1, h2]
     · simp [ha]
   refine ⟨h.lis, h.lisLen, ?_, h.notLen, ?_, h.pend⟩
   · show RegOK w.notReg _
@@ -140,14 +166,26 @@ theorem Inv.pres_setN_update {w : World} (h : Inv w) {n : Nat} {N : Noti} (hN : 
   · intro a A hA hAst
     by_cases ha : a = n
     · subst ha
-      simp [setN] at hA
+      simp at hA
       subst hA
-      refine ⟨by rw [hf.2.2.2.2]; exact Nat.le_refl _, fun _ => ?_⟩
-      have s := updateConns_synced w N (h.sync a N hN hst).2
-      exact ⟨s.all, s.only⟩
-    · simp [setN, ha] at hA
+      exact ⟨by rw [h3]; exact Nat.le_refl _, fun _ => ⟨hs.all, hs.only⟩⟩
+    · simp [ha] at hA
       obtain ⟨x, y⟩ := h.sync a A hA hAst
       exact ⟨x, fun e => ⟨(y e).all, (y e).only⟩⟩
+
+/-- a notifier refreshes its connections -/
+theorem Inv.pres_setN_update {w : World} (h : Inv w) {n : Nat} {N : Noti} (hN : w.nots n = some N) (hst : N.st = .alive) :
+    Inv (setN w n (updateConns w N)) := by
+  have hf := updateConns_fields w N
+  exact h.pres_setN_synced hN _ hf.1 hf.2.1 hf.2.2.2.2 (updateConns_synced w N (h.sync n N hN hst).2)
+
+/-- … and closes the connections whose trigger failed -/
+theorem Inv.pres_setN_pruned {w : World} (h : Inv w) {n : Nat} {N : Noti} (hN : w.nots n = some N) (hst : N.st = .alive)
+    (ls : List Nat) : Inv (setN w n (prune w (updateConns w N) ls)) := by
+  have hf := updateConns_fields w N
+  have pf := prune_fields w (updateConns w N) ls
+  exact h.pres_setN_synced hN _ (by rw [pf.1, hf.1]) (by rw [pf.2.1, hf.2.1]) (by rw [pf.2.2.2.2, hf.2.2.2.2])
+    (prune_synced ls (updateConns_synced w N (h.sync n N hN hst).2))
 
 theorem deliver_liss (w : World) (ts : List Nat) (id : Nat) (l : Nat) :
     (deliver w ts id).liss l =
@@ -210,27 +248,69 @@ theorem Inv.pres_deliver {w : World} (h : Inv w) (ts : List Nat) {id : Nat} (hid
 theorem notifyCore_eq (w : World) (n : Nat) (N : Noti) (id : Nat) :
     notifyCore w n N id =
       if w.cfg.idMax < id then (setN w n (updateConns w N), .error .outOfBounds)
-      else ({ deliver (setN w n (updateConns w N)) (targets (updateConns w N)) id with hist := w.hist ++ [id] },
+      else ({ deliver (setN w n (prune w (updateConns w N) (targets (updateConns w N)))) (targets (updateConns w N)) id with
+                hist := w.hist ++ [id] },
             if w.cfg.deadline = 2 then .error .missedDeadline
-            else .ok ((targets (updateConns w N)).filter (reaches (setN w n (updateConns w N)))).length) := rfl
+            else .ok ((targets (updateConns w N)).filter (reaches w)).length) := rfl
 
 theorem Inv.pres_notifyCore {w : World} (h : Inv w) {n : Nat} {N : Noti} (hN : w.nots n = some N) (hst : N.st = .alive) (id : Nat) :
     Inv (notifyCore w n N id).1 := by
   rw [notifyCore_eq]
-  have h1 := h.pres_setN_update hN hst
   split
-  · exact h1
+  · exact h.pres_setN_update hN hst
   · rename_i hid
-    exact h1.pres_deliver _ (by show id ≤ w.cfg.idMax; omega)
+    exact (h.pres_setN_pruned hN hst _).pres_deliver _ (by show id ≤ w.cfg.idMax; omega)
 
-/-- what `notifyCore` leaves alone -/
+/-- what `notifyCore` leaves alone; the notifier's record keeps its identity -/
 theorem notifyCore_frame (w : World) (n : Nat) (N : Noti) (id : Nat) :
     (notifyCore w n N id).1.cfg = w.cfg ∧ (notifyCore w n N id).1.lisReg = w.lisReg ∧
     (notifyCore w n N id).1.notReg = w.notReg ∧ (notifyCore w n N id).1.parts = w.parts ∧
     (notifyCore w n N id).1.partKeys = w.partKeys ∧
-    (notifyCore w n N id).1.nots = (fun a => if a = n then some (updateConns w N) else w.nots a) := by
+    ∃ N', (notifyCore w n N id).1.nots = (fun a => if a = n then some N' else w.nots a) ∧
+      N'.st = N.st ∧ N'.slot = N.slot ∧ N'.node = N.node ∧ N'.defId = N.defId := by
   rw [notifyCore_eq]
-  split <;> simp [setN, deliver]
+  have hf := updateConns_fields w N
+  split
+  · exact ⟨rfl, rfl, rfl, rfl, rfl, _, rfl, hf.1, hf.2.1, hf.2.2.1, hf.2.2.2.1⟩
+  · have pf := prune_fields w (updateConns w N) (targets (updateConns w N))
+    exact ⟨rfl, rfl, rfl, rfl, rfl, _, rfl, by rw [pf.1, hf.1], by rw [pf.2.1, hf.2.1], by rw [pf.2.2.1, hf.2.2.1],
+      by rw [pf.2.2.2.1, hf.2.2.2.1]⟩
+
+/-! ### `notifyOneCore` (single-listener API) -/
+
+theorem notifyOneCore_eq (w : World) (n : Nat) (N : Noti) (slot l id : Nat) :
+    notifyOneCore w n N slot l id =
+      if w.cfg.idMax < id then (setN w n (updateConns w N), .error .outOfBounds)
+      else if (updateConns w N).conns[slot]? = some (some l) then
+        ({ deliver (setN w n (prune w (updateConns w N) [l])) [l] id with hist := w.hist ++ [id] },
+         if w.cfg.deadline = 2 then .error .missedDeadline else .ok ())
+      else (setN w n (updateConns w N), .error .invalidKey) := rfl
+
+theorem Inv.pres_notifyOneCore {w : World} (h : Inv w) {n : Nat} {N : Noti} (hN : w.nots n = some N) (hst : N.st = .alive)
+    (slot l id : Nat) : Inv (notifyOneCore w n N slot l id).1 := by
+  rw [notifyOneCore_eq]
+  split
+  · exact h.pres_setN_update hN hst
+  · rename_i hid
+    split
+    · exact (h.pres_setN_pruned hN hst _).pres_deliver _ (by show id ≤ w.cfg.idMax; omega)
+    · exact h.pres_setN_update hN hst
+
+theorem notifyOneCore_frame (w : World) (n : Nat) (N : Noti) (slot l id : Nat) :
+    (notifyOneCore w n N slot l id).1.cfg = w.cfg ∧ (notifyOneCore w n N slot l id).1.lisReg = w.lisReg ∧
+    (notifyOneCore w n N slot l id).1.notReg = w.notReg ∧ (notifyOneCore w n N slot l id).1.parts = w.parts ∧
+    (notifyOneCore w n N slot l id).1.partKeys = w.partKeys ∧
+    ∃ N', (notifyOneCore w n N slot l id).1.nots = (fun a => if a = n then some N' else w.nots a) ∧
+      N'.st = N.st ∧ N'.slot = N.slot ∧ N'.node = N.node ∧ N'.defId = N.defId := by
+  rw [notifyOneCore_eq]
+  have hf := updateConns_fields w N
+  have pf := prune_fields w (updateConns w N) [l]
+  split
+  · exact ⟨rfl, rfl, rfl, rfl, rfl, _, rfl, hf.1, hf.2.1, hf.2.2.1, hf.2.2.2.1⟩
+  · split
+    · exact ⟨rfl, rfl, rfl, rfl, rfl, _, rfl, by rw [pf.1, hf.1], by rw [pf.2.1, hf.2.1], by rw [pf.2.2.1, hf.2.2.1],
+        by rw [pf.2.2.2.1, hf.2.2.2.1]⟩
+    · exact ⟨rfl, rfl, rfl, rfl, rfl, _, rfl, hf.1, hf.2.1, hf.2.2.1, hf.2.2.2.1⟩
 
 /-! ### listeners -/
 
